@@ -94,16 +94,22 @@ def step (g : Graph) (a : Run.Args) (pools : List Pool) (sc : Scan) (e : Ev) : S
 def scan (g : Graph) (a : Run.Args) (tr : List Ev) : Scan :=
   tr.foldl (step g a (initPools a.pools)) {}
 
-/-- The files the invocation asks for (C18 `target_choice`), or `none` when a name is unknown. -/
+/-- The files the invocation asks for (C18 `target_choice`), or `none` when a name is unknown.
+    The manifest named as a target is skipped by `run::build` (it was brought up to date in the
+    first phase already); `wantedBuilds` adds it for invocations that did not reload. -/
 def wantedFiles (g : Graph) (a : Run.Args) : Option (List Nat) :=
   if !a.targets.isEmpty then
     a.targets.foldl (fun acc n =>
       match acc, Run.lookup g n with
-      | some l, .ok (some t) => some (l ++ [t])
+      | some l, .ok (some t) => some (if t = a.manifest then l else l ++ [t])
       | some l, .ok none => if a.adopt then some l else none
       | _, _ => none) (some [])
   else if !a.defaults.isEmpty then some a.defaults
   else some ((List.range g.nFiles).filter (· ≠ a.manifest))
+
+/-- The command-line names that resolve (used when another one does not). -/
+def resolvable (g : Graph) (a : Run.Args) : List Nat :=
+  a.targets.filterMap (fun n => match Run.lookup g n with | .ok (some t) => some t | _ => none)
 
 /-- Builds in the closure of the wanted files over ordering and validation producers. -/
 def wantedBuilds (g : Graph) (a : Run.Args) (files : List Nat) (withManifest : Bool := true) : List Nat :=
@@ -152,7 +158,9 @@ def verdicts (g : Graph) (a : Run.Args) (result : List String) (tr : List Ev) : 
     traceConsistent := sc.setsConsistent
     onlyWanted := match wanted with
       | some _ => touched.all cl.contains
-      | none => (touched.all (wantedBuilds g a []).contains) && sc.started.all (wantedBuilds g a []).contains
+      -- an unknown name: the names before it were already marked (never more than what the
+      -- resolvable names ask for), and no command outside the manifest's closure was started
+      | none => (touched.all (wantedBuilds g a (resolvable g a)).contains) && sc.started.all (wantedBuilds g a []).contains
     closureComplete := !isOk || cl.all touched.contains
     exitOk := !isOk || (sc.failures == 0 && !sc.interrupted && touched.all (fun b => sc.st b == .done))
     summaryOk := !isOk || n == sc.successes
